@@ -16,3 +16,119 @@ def check(ctx):
 
 
 replay = c01.replay
+
+
+# ---- schedule half (engine S): metadata through the timing / buffering nodes -----------------------
+from ..sched import Violation   # noqa: E402
+from .. import spar              # noqa: E402
+from . import c04                # noqa: E402
+from ._pipes import flat         # noqa: E402
+
+MOD = __name__
+
+
+def _probe_class():
+    from streamz import Stream
+
+    class MdProbe(Stream):
+        """pass-through node that records the metadata delivered with every element"""
+
+        def __init__(self, up, scen):
+            self.scen = scen
+            Stream.__init__(self, up)
+
+        def update(self, x, who=None, metadata=None):
+            ok = isinstance(metadata, list) and all(isinstance(d, dict) for d in metadata)
+            self.scen.log.append(("md", "probe", self.scen.loop.time(), c04._fz(x),
+                                  tuple(d.get("id") for d in metadata) if ok else repr(metadata)[:80]))
+            self.scen.md_events.append((c04._fz(x), metadata))
+            return self._emit(x, metadata=metadata)
+    return MdProbe
+
+
+class MdChain(c04.RefChain):
+    """element x carries x % 3 metadata dictionaries (0 -> emitted without metadata)"""
+
+    def md(self, x, i):
+        k = x % 3
+        self.mds[x] = [{"id": (x, j)} for j in range(k)]
+        return self.mds[x] if k else None
+
+    def build(self):
+        self.mds = {}
+        self.md_events = []
+        super().build()
+
+    def attach_sink(self, node):
+        self.probe = _probe_class()(node, self)
+        self.sink = self.probe.sink(self.make_sink_fn(self.params.get("kind", "future"), "S"))
+
+    def check_step(self):
+        site = self.site()
+        start = getattr(self, "_seen_md", 0)
+        self._seen_md = len(self.md_events)
+        for value, m in self.md_events[start:]:
+            if not (isinstance(m, list) and all(isinstance(d, dict) for d in m)):
+                return Violation("md-shape", site, "", dict(value=value, metadata=repr(m)[:120]))
+            want = [d for x in flat(value) for d in self.mds.get(x, [])]
+            if [d.get("id") for d in m] != [d["id"] for d in want]:
+                return Violation("md-content", site, "", dict(value=value, got=[d.get("id") for d in m], want=[d["id"] for d in want]))
+            if any(a is not b for a, b in zip(m, want)):
+                return Violation("md-identity", site, "", dict(value=value))
+        return None
+
+    def check_final(self):
+        return self.check_step()
+
+
+def factory(key):
+    node, kind, mode, n, items = key
+    return lambda: MdChain(prop="C10", nodes=(node,), kind=kind, mode=mode, n=n, fail=0, items=list(items) if items else None)
+
+
+def sched_plan(ctx):
+    T = ctx.thorough
+    jobs = []
+    for node in c04.ASYNC_NODES:
+        heavy = node.startswith(("timed_window", "partition:2:1", "delay", "rate_limit"))
+        jobs.append(((node, "future", "burst", 3, None), 1 if (T or not heavy) else 0))
+        if T:
+            jobs.append(((node, "native", "await", 4 if not heavy else 3, None), 1))
+    for node in c04.UNIQUE_NODES:
+        jobs.append(((node, "future", "burst", 4, (1, 3, 2, 4)), 1 if T else 0))
+    return jobs
+
+
+_q_check = check
+
+
+def check(ctx):   # noqa: F811
+    rep = _q_check(ctx)
+    jobs = sched_plan(ctx)
+    res = spar.run_scenarios(ctx, MOD, jobs, cap=300000)
+    srep = spar.report_from(ctx, MOD, res, bounds=[0, 1],
+                            rule="schedule half: every buffering / timing node in front of a gated consumer, elements carrying 0, 1 or 2 metadata dicts, "
+                                 "every schedule with <= 1 deviation; a pass-through probe records the metadata delivered with every batch",
+                            assumptions=["virtual loop; probe node between the node under test and the consumer"])
+    for f in srep.findings:
+        rep.add(f)
+    c, d = rep.coverage, srep.coverage
+    for k in ("evaluations", "states", "transitions", "traces_validated_against_impl", "distinct_nontrivial"):
+        c[k] = c.get(k, 0) + d.get(k, 0)
+    c["rule"] = "sequence half: " + c["rule"] + " || " + d["rule"]
+    c["schedule_half"] = dict(scenarios=d["scenarios"], executions=d["evaluations"])
+    rep.exhaustive = rep.exhaustive and srep.exhaustive
+    rep.assumptions += srep.assumptions
+    return rep
+
+
+_q_replay = replay
+
+
+def replay(ctx, rep):   # noqa: F811
+    if rep.get("engine") == "sched":
+        x = spar.replay_finding(MOD, rep)
+        for v in x.violations:
+            print("  replayed:", v)
+        return not x.violations
+    return _q_replay(ctx, rep)
